@@ -202,6 +202,95 @@ func runC03(c *Ctx) {
 	c.Rule("C03.Q9", "SAME-VALUE", "the block attached to a commit is the block that was voted for: commit looks the block up under the hash whose votes it attaches, and every function that can be installed as the block lookup returns nil or the entry stored under exactly the hash it was asked for; the cache stores a block only under its own hash")
 	c.Min(4)
 	c03Q9(c, w)
+
+	// ------------------------------------------------------------ Q10
+	c.Rule("C03.Q10", "SIBLINGS", "signer, counter and verifier resolve a vote's signer index in the same validator set — the stake look-back set (certificate votes: the certificate stake look-back): every call in consensus/ucon that opens a validator reader from a look-back kind passes a stake kind (shared with C01.R7); otherwise the votes attached to a commit carry indexes the header verifier resolves to other validators and no verifier accepts the set")
+	c.Min(4)
+	lookBackStakeKinds(c, w)
+
+	// ------------------------------------------------------------ Q11
+	c.Rule("C03.Q11", "GATE", "a commit is announced only with a counted precommit quorum of the chamber for that block, and in certificate rounds with a certificate quorum too: every call of commit in judgeVoteCount is dominated by (the quorum just crossed is the precommit one: voteType == Precommit) or (voteStatus.status(Precommit, KindChamber) == true), and — unless shouldCert is known false — by voteType == Certificate or status(Certificate, KindChamber) == true. The prevote quorum is always seen first, so gating on it lets certificate votes that overtake the precommits produce a commit whose precommit set no verifier accepts")
+	c.Min(3)
+	{
+		jvcFn := w.Fn(uconPkg, "Voter", "judgeVoteCount")
+		commitObj := w.FuncObj(uconPkg, "Voter", "commit")
+		preV, _ := constant.Int64Val(constant.ToInt(constOf(w, uconPkg, "Precommit")))
+		certV, _ := constant.Int64Val(constant.ToInt(constOf(w, uconPkg, "Certificate")))
+		chamberV, _ := constant.Int64Val(constant.ToInt(constOf(w, "params", "KindChamber")))
+		var vtParam *ssa.Parameter
+		for _, prm := range jvcFn.Params {
+			if ownerName(prm.Type()) == "VoteType" {
+				vtParam = prm
+			}
+		}
+		shouldCertF := w.Field(uconPkg, "Voter", "shouldCert")
+		n := 0
+		for _, fn := range withSplitOffHelpers(w, jvcFn) {
+			for _, ci := range callsTo(fn, commitObj) {
+				n++
+				c.sites++
+				atoms := atomsOf(factsAtInstr(ci.(ssa.Instruction)))
+				if fn != jvcFn {
+					// a split-off part of judgeVoteCount: the conditions at its call in judgeVoteCount hold too
+					bindSplitOff(w, jvcFn)
+					for _, cj := range callInstrs(jvcFn) {
+						if cj.Common().StaticCallee() == fn {
+							atoms = append(atoms, atomsOf(factsAtInstr(cj.(ssa.Instruction)))...)
+						}
+					}
+				}
+				kindIs := func(k int64) bool {
+					for _, a := range atoms {
+						if a.Kind == "eq" && a.Truth && a.Y != nil && vtParam != nil {
+							if cv, isC := constInt(a.Y); isC && cv == k && bound(stripConv(a.X)) == ssa.Value(vtParam) {
+								return true
+							}
+							if cv, isC := constInt(a.X); isC && cv == k && bound(stripConv(a.Y)) == ssa.Value(vtParam) {
+								return true
+							}
+						}
+					}
+					return false
+				}
+				statusOf := func(k int64) bool {
+					for _, a := range atoms {
+						if a.Kind != "true" || !a.Truth {
+							continue
+						}
+						cc, isCall := stripConv(a.X).(*ssa.Call)
+						if !isCall || calleeObj(cc) == nil || calleeObj(cc).Name() != "status" || recvName(calleeObj(cc)) != "VoteStatus" {
+							continue
+						}
+						args := callArgs(cc)
+						if len(args) < 2 {
+							continue
+						}
+						kv, ok1 := constInt(args[0])
+						kk, ok2 := constInt(args[1])
+						if ok1 && ok2 && kv == k && kk == chamberV {
+							return true
+						}
+					}
+					return false
+				}
+				noCert := false
+				for _, a := range atoms {
+					if a.Kind == "true" && !a.Truth {
+						if f, _ := loadedField(stripConv(a.X)); f == shouldCertF {
+							noCert = true
+						}
+					}
+				}
+				pre := kindIs(preV) || statusOf(preV)
+				cert := noCert || kindIs(certV) || statusOf(certV)
+				ok := pre && cert
+				c.Check(fmt.Sprintf("%s#commit-%d-needs-precommit-and-certificate-quorum", fname(jvcFn), n), ci.Pos(), ok, ifelse(ok, "dominated by the precommit quorum (and the certificate quorum unless the round needs none)", fmt.Sprintf("commit is reachable without (precommit quorum of the chamber=%v, certificate quorum or no-certificate round=%v): the commit announces a block whose attached precommit / certificate set is below the quorum, and the header built from it is rejected by every verifier", pre, cert)))
+			}
+		}
+		if n == 0 {
+			c.Undecided(fname(jvcFn)+"#commit-sites", jvcFn.Pos(), "no call of commit found in judgeVoteCount")
+		}
+	}
 }
 
 func c03Q8(c *Ctx, w *World, pvm *ssa.Function, jvcObj *types.Func) {
